@@ -350,6 +350,7 @@ pub fn case(t: &mut Tape, scratch: &Scratch) -> CaseResult {
             }
         }
     }
+    let mut symlinked = false;
     if let Some(m) = &meaning {
         let ldir = dir.join(&m.locales_dir);
         let _ = std::fs::create_dir_all(&ldir);
@@ -364,6 +365,16 @@ pub fn case(t: &mut Tape, scratch: &Scratch) -> CaseResult {
             let p = ldir.join(f);
             if let Some(parent) = p.parent() {
                 let _ = std::fs::create_dir_all(parent);
+            }
+            // one configuration in five: one of the designated files is a symbolic link to a file kept elsewhere
+            let h = vcommon::ctx::hash_str(&man);
+            if h % 5 == 0 && (h / 5) as usize % needed.len() == i {
+                let shared = dir.join(format!("shared_translation_{i}.json"));
+                let _ = std::fs::write(&shared, "{\"k\": \"v\"}");
+                if std::os::unix::fs::symlink(&shared, &p).is_ok() {
+                    symlinked = true;
+                    continue;
+                }
             }
             let _ = std::fs::write(&p, "{\"k\": \"v\"}");
         }
@@ -478,6 +489,9 @@ pub fn case(t: &mut Tape, scratch: &Scratch) -> CaseResult {
     }
     if !c.trailer.is_empty() {
         classes.push("trailing-sections".into());
+    }
+    if symlinked {
+        classes.push("designated-file-is-a-symbolic-link".into());
     }
     if !c.decoys.is_empty() {
         classes.push("decoy-files".into());
